@@ -82,8 +82,13 @@ class _Rec:
 
 class Scheduler:
     def __init__(self, seed=0, policy='random', p_switch=0.25, line_p=0.0, horizon=600.0,
-                 max_steps=2_000_000, pct_depth=2, pct_steps=2000, trace=False):
+                 max_steps=2_000_000, pct_depth=2, pct_steps=2000, trace=False, line_focus=(), line_focus_p=0.0):
         self.rng = random.Random(seed)
+        # statements of the functions named in line_focus are pre-empted with line_focus_p instead of line_p (stress on
+        # the code paths a workload is about, e.g. everything that runs while a link is being closed)
+        self.line_focus = frozenset(line_focus)
+        self.line_focus_p = line_focus_p
+        self.focus_points = 0
         self.seed = seed
         self.policy = policy
         self.p_switch = p_switch
@@ -376,7 +381,11 @@ class Scheduler:
                 raise ThreadKilled()
             return
         self.line_points += 1
-        if self.rng.random() < self.line_p:
+        p = self.line_p
+        if self.line_focus and code.co_name in self.line_focus:
+            p = max(p, self.line_focus_p)
+            self.focus_points += 1
+        if self.rng.random() < p:
             self.point(force=True)
 
 
